@@ -146,6 +146,19 @@ def run_check(pid, tier, seed, replay=None):
         "props_compile_s": round(ptime, 1),
     }
     cov.update(common.jsonable(res.extra))
+    # which of the /repo functions the models mirror have changed since the models were written (fingerprints in harness/anchors.json,
+    # tools/mkanchors.py): informative only - whether model and code still agree is decided by the correspondence above
+    try:
+        sys.path.insert(0, os.path.join(os.path.dirname(os.path.abspath(__file__)), "..", "tools"))
+        import mkanchors
+        base = json.load(open(os.path.join(os.path.dirname(os.path.abspath(__file__)), "anchors.json")))
+        cur = mkanchors.current()
+        changed = sorted(f"{m}: {sp}" for m, d in base.items() for sp, h in d.items() if cur.get(m, {}).get(sp) != h)
+        cov["modelled_source"] = {"functions_fingerprinted": sum(len(d) for d in base.values()), "changed_since_the_models_were_written": changed}
+        if changed:
+            lines.append(f"note: {len(changed)} modelled function(s) of /repo differ from the source the models were written against: " + "; ".join(changed[:4]))
+    except Exception as ex:  # noqa
+        cov["modelled_source"] = {"error": repr(ex)[:200]}
     ev = {"property_id": pid, "tier": tier, "seed": int(seed), "level": "proof", "coverage": cov,
           "assumptions": list(getattr(mod, "ASSUMPTIONS", [])), "wall_s": round(wall, 2), "violations": violations}
     evdir = common.EVID if not os.environ.get("VERIF_NO_EVIDENCE") else os.path.join(common.WORK, "evidence_scratch")
